@@ -28,6 +28,8 @@ def gen_workload(rng):
             d = rng.choice([0.0, 0.001, 0.02, 0.05, 0.1, 0.7, 5.5])
         units.append({"id": i, "dur": d, "fail": rng.random() < 0.15})
     pattern = rng.choice(["scheduler", "burst", "random"])
+    if units and rng.random() < 0.15:
+        units[rng.randrange(len(units))]["kills_pool"] = True      # its worker process dies
     return {"n_workers": nw, "units": units, "pattern": pattern, "stall_p": rng.choice([0.0, 0.0, 0.1, 0.3]),
             "stop_early": rng.random() < 0.3}
 
@@ -60,6 +62,10 @@ def run_workload(case):
         futures = AR.future_list()
         submitted = {}           # id(fut) -> unit id
         consumed = []            # unit ids in consumption order
+        pool_failed = set()
+
+        def pool_broken():
+            return any(ex.broken for ex in rec.executors)
         pending = list(wl["units"])
 
         def submit_one():
@@ -89,15 +95,20 @@ def run_workload(case):
                 V("unfinished_future_returned", f"unit {uid}: as_completed returned a pending future")
                 return True
             u = units[uid]
+            from concurrent.futures.process import BrokenProcessPool
             try:
                 res = fut.result()
-                if u["fail"]:
+                if u["fail"] or u.get("kills_pool"):
                     V("exception_lost", f"unit {uid} raised but its future holds result {res}")
                 elif res != {"id": uid, "val": uid * 7 + 1}:
                     V("wrong_result", f"unit {uid}: future holds {res}")
             except UnitError as exc:
                 if not u["fail"] or f"unit {uid} " not in str(exc):
                     V("wrong_exception", f"unit {uid}: future raised {exc!r}")
+            except BrokenProcessPool:
+                pool_failed.add(uid)
+                if not pool_broken():
+                    V("wrong_exception", f"unit {uid}: BrokenProcessPool but no pool process died")
             return True
 
         pat = wl["pattern"]
@@ -138,12 +149,13 @@ def run_workload(case):
         # ---------------- final oracle
         for uid, fut in submitted.values():
             n = executed.count(uid)
-            if n != 1:
-                V("unit_not_executed_once", f"unit {uid} executed {n} times")
+            lost_with_pool = uid in pool_failed or units[uid].get("kills_pool")
+            if n != (0 if lost_with_pool else 1):
+                V("unit_not_executed_once", f"unit {uid} executed {n} times (lost with the pool: {bool(lost_with_pool)})")
             kinds = rec.completions.get(id(fut), [])
             if len(kinds) != 1:
                 V("future_completed_not_once", f"unit {uid}: completions {kinds}")
-            elif (kinds[0] == "exception") != units[uid]["fail"]:
+            elif (kinds[0] == "exception") != bool(units[uid]["fail"] or lost_with_pool):
                 V("wrong_completion_kind", f"unit {uid}: {kinds[0]}, fail={units[uid]['fail']}")
         if sorted(consumed) != sorted(u for u, _ in submitted.values()):
             V("not_all_results_delivered", f"consumed {sorted(consumed)} of {sorted(u for u, _ in submitted.values())}")
